@@ -8,8 +8,18 @@
  *  - Three regular files per tree: F_OBS (stream.obs), F_JSON (stream.json), F_AUX (one
  *    more entry "stream.<anything>"); plus at most one non-stream directory entry.
  *  - Paths: snprintf is rebound (formatting is what the prelude drops) to an ENCODER:
- *    out = { tree tag of the first %s argument, file tag, NUL }.  Directory strings are
- *    "T" / "F".  So which file a call touches is decided by the real argument flow.
+ *    out = { tree tag of the first %s argument, file tag, NUL, level, tid (4 bytes) }.
+ *    Directory strings are "T" / "F".  So which file a call touches is decided by the real
+ *    argument flow.  After the NUL the encoding carries WHOSE path it is: level 'p' for a
+ *    process-level directory (procdir, procdir_final, loom dir...), level 't' for a per-thread
+ *    path, and then the INTEGER that the code formatted into "thread.%d" (for "%s/%s" and
+ *    "%s/stream.json": the integer of the thread directory string the path was formed from).
+ *    A "thread.%d" path formed from anything but a process-level directory, or a file path
+ *    formed from anything but a thread directory, gets level '!' (malformed).
+ *    The ghost FS models the two directories of ONE thread, g_fs_tid: every stub that takes a
+ *    per-thread path asserts PATH_MINE (level 't' and formatted integer == g_fs_tid); contracts
+ *    bind g_fs_tid to the thread's own tid (rthread.tid / the tid parameter).  A path formatted
+ *    with any other integer (pid, tid + 1...) names another thread's directory: assertion fails.
  *  - Each file has an ORIGINAL content (length g_len[id], observed at ONE arbitrary
  *    position g_pos: byte g_obyte[id]) and a state:
  *      S_ABSENT   no directory entry
@@ -39,8 +49,12 @@ static void c09_die_hook(void);
 #define write verif_rt_write
 #include "rt_common.h"
 #undef write
+#ifndef C09_REAL_PARSON
 #define VERIF_OWN_JSON_STORE
 #include "rt_parson_stub.h"
+#else
+#include "parson.h"
+#endif
 extern int __CPROVER_errno;
 
 enum { T_TMP = 0, T_FIN = 1 };
@@ -78,8 +92,14 @@ char g_xname[12];
 /* final/stream.obs holds every flushed byte.  tmpdir mode: it is a complete copy.  Direct mode:
  * every byte the thread produced has been handed to write(2) and none is pending in the buffer.
  * (rproc / rthread: the real globals of ovni.c, included after this header) */
-#define OBS_FINAL_OK (rproc.move_to_final ? C09_STATE(T_FIN, F_OBS) == S_COMPLETE \
-	: (g_file_len == g_total && rthread.evlen == 0))
+/* C09_MOVE_TO_FINAL / C09_EVLEN: the two runtime variables the invariant reads (harness/c09_parson.c,
+ * which has no ovni.c in its TU, binds them to ghosts) */
+#ifndef C09_MOVE_TO_FINAL
+#define C09_MOVE_TO_FINAL rproc.move_to_final
+#define C09_EVLEN rthread.evlen
+#endif
+#define OBS_FINAL_OK (C09_MOVE_TO_FINAL ? C09_STATE(T_FIN, F_OBS) == S_COMPLETE \
+	: (g_file_len == g_total && C09_EVLEN == 0))
 #define INV_CRASH (!(C09_STATE(T_FIN, F_JSON) >= S_MAYBE && g_jfin[T_FIN]) || OBS_FINAL_OK)
 /* C10: never delete / truncate the only complete copy */
 #define NOLOSS(id) (!g_had[id] || C09_STATE(T_TMP, id) == S_COMPLETE || C09_STATE(T_FIN, id) == S_COMPLETE)
@@ -115,33 +135,62 @@ static int c09_name_id(const char *p)
 	return F_AUX;
 }
 static char c09_id_tag(int id) { return id == F_OBS ? 'o' : id == F_JSON ? 'j' : 'a'; }
-/* fmt with one string argument (plus, possibly, integers that are dropped) */
-static int c09_snp(char *s, size_t n, const char *fmt, const char *a0, const char *a1)
+/* ---- whose path: level byte and formatted thread id, after the NUL ---- */
+#define PATH_BYTES 8
+int g_fs_tid;                /* the thread whose directories (tmp/thread.N, final/thread.N) the ghost FS models */
+int g_fmt_tid;               /* the integer most recently formatted into a "...thread.%d..." path */
+unsigned g_fmt_n;            /* number of "...thread.%d..." paths formatted so far */
+#define PATH_TID(p) (*(const int *) ((p) + 4))
+#define PATH_THR(p) ((p)[3] == 't')
+#define PATH_PROC(p) ((p)[3] == 'p')
+#define PATH_MINE(p) (PATH_THR(p) && PATH_TID(p) == g_fs_tid)
+/* the string arguments (a0, a1) and the first integer argument after a0 (i1) */
+static int c09_snp(char *s, size_t n, const char *fmt, const char *a0, const char *a1, int i1)
 {
 	int r = nondet_int();
 	__CPROVER_assume(r >= 0);
 	if ((size_t) r >= n) g_fsfault++;   /* "path too long" is reported by the callers like an I/O fault */
-	if (s == NULL || n < 3) return r;
+	if (s == NULL || n < PATH_BYTES) return r;
+	int fmt_thread = 0;   /* the format has "thread.%d": a0 must be a process-level directory */
+	int fmt_entry = 0;    /* the format appends a file name to a0, which must be a thread directory */
 	s[0] = a0 != NULL ? a0[0] : 0;
-	if (strcmp(fmt, "%s/%s") == 0)
-		s[1] = c09_id_tag(c09_name_id(a1));
-	else if (strcmp(fmt, "%s/stream.json") == 0 || strcmp(fmt, "%s/thread.%d/stream.json") == 0)
-		s[1] = 'j';
-	else if (strcmp(fmt, "%s/thread.%d/stream.obs") == 0)
-		s[1] = 'o';
-	else
-		s[1] = 0;   /* "%s/thread.%d": the thread directory of the same tree */
+	if (strcmp(fmt, "%s/%s") == 0) {
+		s[1] = c09_id_tag(c09_name_id(a1)); fmt_entry = 1;
+	} else if (strcmp(fmt, "%s/stream.json") == 0) {
+		s[1] = 'j'; fmt_entry = 1;
+	} else if (strcmp(fmt, "%s/thread.%d/stream.json") == 0) {
+		s[1] = 'j'; fmt_thread = 1;
+	} else if (strcmp(fmt, "%s/thread.%d/stream.obs") == 0) {
+		s[1] = 'o'; fmt_thread = 1;
+	} else if (strcmp(fmt, "%s/thread.%d") == 0) {
+		s[1] = 0; fmt_thread = 1;   /* the thread directory of the same tree */
+	} else {
+		s[1] = 0;                   /* any other format: a process-level directory (or a metadata key) */
+	}
 	s[2] = 0;
+	if (fmt_thread) {
+		s[3] = (a0 != NULL && PATH_PROC(a0)) ? 't' : '!';
+		*(int *) (s + 4) = i1;
+		g_fmt_tid = i1;
+		g_fmt_n++;
+	} else if (fmt_entry) {
+		s[3] = (a0 != NULL && PATH_THR(a0)) ? 't' : '!';
+		*(int *) (s + 4) = a0 != NULL ? PATH_TID(a0) : 0;
+	} else {
+		s[3] = 'p';
+		*(int *) (s + 4) = 0;
+	}
 	return r;
 }
-/* pick the string arguments: integers (tid) are dropped */
+/* pick the string arguments and the integer (tid / pid) arguments */
 #define C09_STR(x) _Generic((x), int: (const char *) 0, default: (x))
+#define C09_INT(x) _Generic((x), int: (x), default: 0)
 #define C09_PICK(_1, _2, _3, _4, NAME, ...) NAME
-#define c09_snp1(s, n, fmt)        c09_snp((s), (n), (fmt), (const char *) 0, (const char *) 0)
-#define c09_snp2(s, n, fmt, a)     c09_snp((s), (n), (fmt), C09_STR(a), (const char *) 0)
-#define c09_snp3(s, n, fmt, a, b)  c09_snp((s), (n), (fmt), C09_STR(a), C09_STR(b))
+#define c09_snp1(s, n, fmt)        c09_snp((s), (n), (fmt), (const char *) 0, (const char *) 0, 0)
+#define c09_snp2(s, n, fmt, a)     c09_snp((s), (n), (fmt), C09_STR(a), (const char *) 0, 0)
+#define c09_snp3(s, n, fmt, a, b)  c09_snp((s), (n), (fmt), C09_STR(a), C09_STR(b), C09_INT(b))
 #undef snprintf
-#define c09_snp4(s, n, fmt, a, b, c)  c09_snp((s), (n), (fmt), C09_STR(a), C09_STR(b))
+#define c09_snp4(s, n, fmt, a, b, c)  c09_snp((s), (n), (fmt), C09_STR(a), C09_STR(b), C09_INT(b))
 #define snprintf(s, n, ...) C09_PICK(__VA_ARGS__, c09_snp4, c09_snp3, c09_snp2, c09_snp1)((s), (n), __VA_ARGS__)
 
 static int c09_tree(const char *path) { return path[0] == TAG_TMP ? T_TMP : T_FIN; }
